@@ -25,12 +25,12 @@ def uniqWith (enc : Nat → Nat → Nat) (levels : Nat → List Nat) (r : Region
 /-- `_uniq()` as coded -/
 def uniq (r : Region) : List Nat := uniqWith Gen.C12.encode Gen.C12.levels r
 
-/-- header keyword MOCORDER written by `write_fits` -/
-def mocOrder (r : Region) : Nat := r.m
+/-- header keyword MOCORDER written by `write_fits` (the value expression is regenerated) -/
+def mocOrder (r : Region) : Nat := Gen.C12.mocOrderOf r.m
 
-/-- `write_reg`: one polygon per stored pixel, `for d in range(1, maxdepth+1): for p in pixeldict[d]`;
+/-- `write_reg`: one polygon per stored pixel, the regenerated level loop, `for p in pixeldict[d]`;
     the four vertices are `hp.boundaries(2**d, p, step=1, nest=True)` (healpy: oracle) -/
 def regPolys (r : Region) : List (Nat × Nat) :=
-  (List.range' 1 r.m).flatMap (fun d => (r.pd d).map (fun p => (d, p)))
+  (Gen.C12.regLevels r.m).flatMap (fun d => (r.pd d).map (fun p => (d, p)))
 
 end Aegean.Model.C12
